@@ -116,6 +116,14 @@ CALLABLES = {
     "Chain": lambda a: _est(vd.Chain([("mean", vd.BlockMean(spacing=1.0)), ("trend", vd.Trend(1)), ("spline", vd.Spline(damping=1e-2))]), a, weights=True),
     "Vector": lambda a: _est(vd.Vector([vd.Trend(1), vd.Spline(damping=1e-2)]), a, weights=True, vector=True),
     "cross_val_score": lambda a: vd.cross_val_score(vd.Trend(1), (a["e"], a["n"]), a["d"], weights=a["w"], cv=KFold(4, shuffle=True, random_state=1)),
+    "BlockKFold.split-shuffle-balanced": lambda a: [[tr.tolist(), te.tolist()] for tr, te in vd.BlockKFold(
+        spacing=2.5, n_splits=3, shuffle=True, random_state=4).split(np.column_stack([a["e"], a["n"]]))],
+    "BlockKFold.split-shuffle-unbalanced": lambda a: [[tr.tolist(), te.tolist()] for tr, te in vd.BlockKFold(
+        spacing=2.5, n_splits=3, shuffle=True, random_state=4, balance=False).split(np.column_stack([a["e"], a["n"]]))],
+    "BlockShuffleSplit.split": lambda a: [[tr.tolist(), te.tolist()] for tr, te in vd.BlockShuffleSplit(
+        spacing=2.5, n_splits=3, test_size=0.3, random_state=4).split(np.column_stack([a["e"], a["n"]]))],
+    "cross_val_score-BlockKFold-unbalanced": lambda a: vd.cross_val_score(
+        vd.Trend(1), (a["e"], a["n"]), a["d"], cv=vd.BlockKFold(spacing=2.5, n_splits=3, shuffle=True, random_state=1, balance=False)),
     "train_test_split": lambda a: vd.train_test_split((a["e"], a["n"], a["up"]), (a["d"], a["d2"]), (a["w"], a["w"]), random_state=2, spacing=2.5),
     "SplineCV": lambda a: vd.SplineCV(dampings=(1e-3, 1e-1), cv=KFold(3, shuffle=True, random_state=0)).fit((a["e"], a["n"]), a["d"]).predict((a["e"][:3], a["n"][:3])),
 }
